@@ -401,6 +401,13 @@ def main():
         ror("diagonal(t3,%s)" % ",".join(map(str, args_)), lambda z, args_=args_: anp.diagonal(z, *args_), t3)
         ror("diagonal(box4,%s)" % ",".join(map(str, args_)), lambda z, args_=args_: anp.diagonal(z, *args_), box4)
         ror("cube.diagonal(%s)" % ",".join(map(str, args_)), lambda z, args_=args_: z.diagonal(*args_), cube)
+    # diagonal of plain matrices (square and not), every offset, axes in both orders and counted from the end
+    sq4 = onp.random.RandomState(13).uniform(0.4, 2.0, (4, 4))
+    for k in (-2, -1, 0, 1, 2):
+        for a1, a2 in ((0, 1), (1, 0), (-1, -2), (-2, -1)):
+            ror("diagonal(rect,%d,%d,%d)" % (k, a1, a2), lambda z, k=k, a1=a1, a2=a2: anp.diagonal(z, k, a1, a2), rect)
+            ror("diagonal(sq4,%d,%d,%d)" % (k, a1, a2), lambda z, k=k, a1=a1, a2=a2: anp.diagonal(z, k, a1, a2), sq4)
+            ror("sq4.diagonal(%d,%d,%d)" % (k, a1, a2), lambda z, k=k, a1=a1, a2=a2: z.diagonal(k, a1, a2), sq4)
     for k in (-1, 0, 1, 2):
         ror("triu(rect,k=%d)" % k, lambda z, k=k: anp.triu(z, k), rect)
         ror("tril(t3,k=%d)" % k, lambda z, k=k: anp.tril(z, k), t3)
@@ -460,6 +467,16 @@ def main():
             ror("rollaxis(t3,%r)" % (ax,), lambda z, ax=ax: anp.rollaxis(z, ax), t3)
             ror("squeeze-expand(t3,%r)" % (ax,), lambda z, ax=ax: anp.squeeze(anp.expand_dims(z, ax), ax), t3)
             ror("cumsum-rev(t3,%r)" % (ax,), lambda z, ax=ax: anp.cumsum(z[::-1], axis=ax), t3)
+    # both operands of an arithmetic operator traced, the scalar one AT a value a fast path would single out (0, 1, 2, -1, 1/2, 3):
+    # its dependence must not be dropped (x ** y at y == 2 is not square(x) when y is differentiated too)
+    import operator as _op
+    cvec = onp.array([0.5, 1.5, 0.25])
+    for oname, of in (("add", _op.add), ("sub", _op.sub), ("mul", _op.mul), ("truediv", _op.truediv), ("pow", _op.pow)):
+        for e in (0.0, 1.0, 2.0, -1.0, 0.5, 3.0):
+            ror("(c*y^2+1) %s y at y=%r" % (oname, e), lambda z, of=of: of(cvec * z[0] ** 2 + 1.0, z[0]), [e])
+            ror("y %s (c*y^2+1) at y=%r" % (oname, e), lambda z, of=of: of(z[0], cvec * z[0] ** 2 + 1.0), [e])
+            ror("0-d: (c*y+2) %s y at y=%r" % (oname, e), lambda z, of=of: of(cvec * anp.reshape(z, ()) + 2.0, anp.reshape(z, ())), [e])
+            ror("np.%s((c*y^2+1), y) at y=%r" % (oname, e), lambda z, oname=oname: getattr(anp, {"add": "add", "sub": "subtract", "mul": "multiply", "truediv": "true_divide", "pow": "power"}[oname])(cvec * z[0] ** 2 + 1.0, z[0]), [e])
     # rollaxis with every (axis, start) pair, negative ones included (refused today; if accepted, the inverse roll has to be right)
     for ax in (-3, -2, -1, 0, 1, 2):
         for st in (-3, -2, -1, 1, 2, 3):
